@@ -192,6 +192,7 @@ func vfXMLInst(content []byte) string {
 		i++
 	}
 	dec := vxml.NewDecoder(bytes.NewReader(content[i:]))
+	dec.CharsetReader = func(label string, input io.Reader) (io.Reader, error) { return input, nil }
 	t, err := dec.RawToken()
 	if err != nil {
 		return "~"
